@@ -193,7 +193,13 @@ def analyse_run(sc, rm: RM, r, want=None, want_lazy_probe=True):
                 if guard_expected:
                     bump("loop_guard_expected")
                 else:
-                    bump("loop_guard_unexpected")   # C09's matter
+                    bump("loop_guard_unexpected")   # C09's matter in the first place ...
+                    # ... and a run that does not complete although every same-time loop stays below
+                    # the bound
+                    viols.setdefault("C05", []).append(
+                        {"kind": "loop_guard_fired_below_bound", "features": {},
+                         "detail": {"outcome": list(oc), "mli": cfg.get("mli", 100)}})
+                    died = "loop_guard_below_bound"
             else:
                 head = msg.split(":")[0][:40] if typ == "AssertionError" else \
                     " ".join(msg.split()[:6])[:50]
